@@ -561,6 +561,9 @@ func (ex *Exec) storeObj(st *State, T types.Type, ref string, v Val) {
 	ls := flatten(T)
 	for i, l := range ls {
 		k := cellKey(T, l, len(ls))
+		if i == 0 {
+			ex.writeObj(st, k, ref)
+		}
 		ex.heapSet(st, k, sArr(sInt, l.Sort), store(ex.heapGet(st, k, sArr(sInt, l.Sort)), ref, v.L[i]))
 	}
 }
@@ -591,6 +594,9 @@ func (ex *Exec) storeArrayMem(st *State, A *types.Array, ref string, v Val) {
 	for i, l := range ls {
 		k := memKey(E, l, len(ls))
 		srt := sArr(sInt, sArr(bv64, l.Sort))
+		if i == 0 {
+			ex.writeMem(st, []string{k}, ref, bvLit(0, 64), bvLit(uint64(A.Len()), 64))
+		}
 		ex.heapSet(st, k, srt, store(ex.heapGet(st, k, srt), ref, v.L[i]))
 	}
 }
@@ -619,6 +625,9 @@ func (ex *Exec) storeField(st *State, S types.Type, f *types.Var, ref string, v 
 	for i, l := range ls {
 		k := fieldKey(S, f.Name(), l.Path)
 		srt := sArr(sInt, l.Sort)
+		if i == 0 {
+			ex.writeObj(st, k, ref)
+		}
 		ex.heapSet(st, k, srt, store(ex.heapGet(st, k, srt), ref, v.L[i]))
 	}
 	ex.storedRefs = append(ex.storedRefs, storedRef{T: S, Ref: ref})
@@ -648,6 +657,9 @@ func (ex *Exec) storeElem(st *State, E types.Type, base, idx string, v Val) {
 		k := memKey(E, l, len(ls))
 		srt := sArr(sInt, sArr(bv64, l.Sort))
 		m := ex.heapGet(st, k, srt)
+		if i == 0 {
+			ex.writeMem(st, []string{k}, base, idx, app("bvadd", idx, bvLit(1, 64)))
+		}
 		ex.heapSet(st, k, srt, store(m, base, store(sel(m, base), idx, v.L[i])))
 	}
 }
@@ -777,6 +789,7 @@ func (ex *Exec) storeGlobal(st *State, g *ssa.Global, v Val) {
 	T := g.Type().(*types.Pointer).Elem()
 	ls := flatten(T)
 	for i, l := range ls {
+		ex.writeGlobal(st, globalKey(g, l.Path))
 		ex.heapSet(st, globalKey(g, l.Path), l.Sort, v.L[i])
 	}
 }
@@ -839,6 +852,10 @@ func (ex *Exec) block(fr *Frame, b *ssa.BasicBlock, st *State) {
 func nonNeg(x string) string { return app("bvsle", bvLit(0, 64), x) }
 
 func (ex *Exec) instr(fr *Frame, st *State, in ssa.Instruction) {
+	if in.Pos().IsValid() {
+		ex.curPos = in.Pos()
+	}
+	ex.curFr = fr
 	switch in := in.(type) {
 	case *ssa.Alloc:
 		T := in.Type().(*types.Pointer).Elem()
@@ -898,7 +915,7 @@ func (ex *Exec) instr(fr *Frame, st *State, in ssa.Instruction) {
 	case *ssa.MakeSlice:
 		ln := ex.toInt64(ex.value(fr, st, in.Len))
 		cp := ex.toInt64(ex.value(fr, st, in.Cap))
-		ex.oblige(fr, st, "slice", "", and(nonNeg(ln), app("bvsle", ln, cp), app("bvult", cp, "#x0000100000000000")), in.Pos(), "make: "+ex.srcLine(in.Pos()))
+		ex.oblige(fr, st, "slice", "", and(nonNeg(ln), app("bvsle", ln, cp), app("bvult", cp, "#x0000800000000000")), in.Pos(), "make: "+ex.srcLine(in.Pos()))
 		base := ex.newRef(st, "mk")
 		E := in.Type().Underlying().(*types.Slice).Elem()
 		ex.zeroMem(st, E, base)
@@ -1140,6 +1157,9 @@ func (ex *Exec) binop(fr *Frame, st *State, in *ssa.BinOp) {
 	}
 	signed := isSigned(T)
 	a, b := x.L[0], y.L[0]
+	if ex.rootFrame != nil && ex.rootFrame.ct != nil && ex.rootFrame.ct.NoOverflow && (in.Op == token.ADD || in.Op == token.SUB || in.Op == token.MUL) {
+		ex.overflowCheck(fr, st, in, a, b, w, signed)
+	}
 	switch in.Op {
 	case token.ADD:
 		out(app("bvadd", a, b))
@@ -1531,4 +1551,19 @@ func (ex *Exec) phi(fr *Frame, st *State, in *ssa.Phi) {
 		out.L[k] = ex.def(in.Name(), ls[k].Sort, out.L[k])
 	}
 	fr.vals[in] = out
+}
+
+
+// overflowCheck: opt-in obligation that an arithmetic operation does not wrap around.
+func (ex *Exec) overflowCheck(fr *Frame, st *State, in *ssa.BinOp, a, b string, w int, signed bool) {
+	ext := func(x string) string {
+		if signed {
+			return fmt.Sprintf("((_ sign_extend %d) %s)", w, x)
+		}
+		return fmt.Sprintf("((_ zero_extend %d) %s)", w, x)
+	}
+	op := map[token.Token]string{token.ADD: "bvadd", token.SUB: "bvsub", token.MUL: "bvmul"}[in.Op]
+	wide := app(op, ext(a), ext(b))
+	narrow := ext(app(op, a, b))
+	ex.oblige(fr, st, "overflow", "", eq(wide, narrow), in.Pos(), fmt.Sprintf("%d-bit arithmetic wraps around: %s", w, ex.srcLine(in.Pos())))
 }
